@@ -229,9 +229,14 @@ impl FragmentedMuxer {
         let first_dts = self.samples[0].dts;
         let last_dts = self.samples.last().unwrap().dts;
         let duration_ticks = last_dts.saturating_sub(first_dts);
-        let duration_ms = duration_ticks * 1000 / self.config.timescale as u64;
+        // `timescale` is a public field: a zero value must not divide by zero, and the
+        // product must not overflow for very long spans.
+        if self.config.timescale == 0 {
+            return false;
+        }
+        let duration_ms = duration_ticks as u128 * 1000 / self.config.timescale as u128;
 
-        duration_ms >= self.config.fragment_duration_ms as u64
+        duration_ms >= self.config.fragment_duration_ms as u128
     }
 
     /// Get current fragment duration in milliseconds.
@@ -242,7 +247,11 @@ impl FragmentedMuxer {
         let first_dts = self.samples[0].dts;
         let last_dts = self.samples.last().unwrap().dts;
         let duration_ticks = last_dts.saturating_sub(first_dts);
-        duration_ticks * 1000 / self.config.timescale as u64
+        if self.config.timescale == 0 {
+            return 0;
+        }
+        let duration_ms = duration_ticks as u128 * 1000 / self.config.timescale as u128;
+        duration_ms.min(u64::MAX as u128) as u64
     }
 }
 
